@@ -8,6 +8,7 @@ import (
 	"sync"
 
 	"github.com/deepteams/webp/internal/dsp"
+	"github.com/deepteams/webp/internal/verifhook"
 )
 
 // importUVWorker holds pre-allocated buffers for UV conversion goroutines.
@@ -460,6 +461,7 @@ func NewEncoder(img image.Image, cfg EncodeConfig) *VP8Encoder {
 	if v := encoderPool.Get(); v != nil {
 		enc := v.(*VP8Encoder)
 		if enc.mbW == mbW && enc.mbH == mbH {
+			verifhook.PoolHit("lossy.VP8Encoder")
 			enc.resetForReuse(cfg, w, h)
 			enc.importImage(img)
 			enc.initSegments()
@@ -505,6 +507,7 @@ func NewEncoderFromYUV(yuv *image.YCbCr, width, height int, cfg EncodeConfig) *V
 	if v := encoderPool.Get(); v != nil {
 		enc := v.(*VP8Encoder)
 		if enc.mbW == mbW && enc.mbH == mbH {
+			verifhook.PoolHit("lossy.VP8Encoder")
 			enc.resetForReuse(cfg, width, height)
 			enc.importYCbCr(yuv)
 			enc.initSegments()
@@ -1397,6 +1400,7 @@ func (enc *VP8Encoder) EncodeFrame() ([]byte, error) {
 		return nil, err
 	}
 	enc.computeStats(frameData)
+	verifhook.ReconPlanes(enc.yPlane, enc.uPlane, enc.vPlane, enc.yStride, enc.uvStride, enc.width, enc.height)
 	return frameData, nil
 }
 
